@@ -1,7 +1,8 @@
 From Coq Require Import Extraction ExtrOcamlBasic.
 From Common Require Import Bytes Drv Blake2b.
 From Trie Require Import Nibbles Encode.
-From C03 Require Import Model.
+From C03 Require Import Model ModelY.
 Extraction "model.ml" drv_b2n drv_n2b drv_z_of_n drv_n_of_z drv_nat_of_n drv_n_of_nat
   blake2b_256 init_state exec xexec xmutated_handle hash_handle entries_handle frozen_parents mutated_handle
-  s_mem s_hs h_gen h_root h_v1 key_le_to_nibbles.
+  s_mem s_hs h_gen h_root h_v1 key_le_to_nibbles
+  yexec ymutated_handle yfrozen_parents.
